@@ -564,9 +564,11 @@ def numeric_constants(expr):
 
 
 def exactify(expr):
-    """Floats read as the exact binary rationals they are (numeric side: lets evalf reduce huge arguments exactly)."""
+    """Each machine float re-read as the SAME real number carried with 80 digits (numeric side: lets evalf reduce
+    huge trig/exp arguments without losing the phase; exact rationals would make powers explode)."""
     expr = sp.sympify(expr)
-    fl = {f: sp.Rational(f) for f in expr.atoms(sp.Float) if f.is_finite}
+    fl = {f: sp.Float(sp.Rational(f), 80) for f in expr.atoms(sp.Float)
+          if f.is_finite and f._prec < 200 and abs(f._mpf_[2]) < 5000}
     return expr.xreplace(fl) if fl else expr
 
 
@@ -1570,6 +1572,42 @@ def bounded_function(c: Contract, law_attr, eq, assoc, rng, npoints: int) -> dic
             "ill_conditioned": illcond}
 
 
+def _float64(expr):
+    """Evaluate with plain machine floats (cmath), the way a float64 implementation of the formula would."""
+    import cmath
+    fn = {sp.exp: cmath.exp, sp.log: cmath.log, sp.sin: cmath.sin, sp.cos: cmath.cos, sp.tan: cmath.tan,
+          sp.sinh: cmath.sinh, sp.cosh: cmath.cosh, sp.tanh: cmath.tanh, sp.asin: cmath.asin, sp.acos: cmath.acos,
+          sp.atan: cmath.atan, sp.asinh: cmath.asinh, sp.acosh: cmath.acosh, sp.atanh: cmath.atanh, sp.Abs: abs}
+
+    def ev(e):
+        if e.is_Number:
+            return complex(float(e)) if e.is_real else complex(e)
+        if e is sp.pi:
+            return complex(math.pi)
+        if e is sp.E:
+            return complex(math.e)
+        if e is sp.I:
+            return 1j
+        if e.is_Add:
+            t = 0j
+            for a in e.args:
+                t += ev(a)
+            return t
+        if e.is_Mul:
+            t = 1 + 0j
+            for a in e.args:
+                t *= ev(a)
+            return t
+        if e.is_Pow:
+            return ev(e.base) ** ev(e.exp)
+        f = fn.get(e.func)
+        if f is not None and len(e.args) == 1:
+            return complex(f(ev(e.args[0])))
+        return complex(sp.N(e, 17))
+
+    return ev(numeric_constants(sp.sympify(expr)))
+
+
 def _ill_conditioned(eq, pairs, n_by_base) -> bool:
     """A point where the law's own sides move by more than the tolerance when the ARGUMENTS move by 1e-13 relative:
     float64 arguments cannot carry the information there (e.g. a phase of 1e30 rad); such points are skipped."""
@@ -1588,7 +1626,14 @@ def _ill_conditioned(eq, pairs, n_by_base) -> bool:
         pp = [(a, bump(v)) for a, v in pairs[:-1]] + [pairs[-1]]
         l1, r1 = sides(pp)
         scale = max(abs(l0), abs(r0), 1e-300)
-        return max(abs(l1 - l0), abs(r1 - r0)) > REL_TOL * scale / 10
+        if max(abs(l1 - l0), abs(r1 - r0)) > REL_TOL * scale / 10:
+            return True
+        # the published formula itself, evaluated in float64, is off by more than the tolerance here (catastrophic
+        # cancellation such as exp(x) - 1 at x ~ 1e-13): "numerical precision" at this point is coarser than the tolerance
+        p64 = [(a, [sp.Float(float(x)) for x in v] if isinstance(v, list) else
+                (sp.Float(float(v)) if sp.sympify(v).is_real else sp.sympify(complex(v)))) for a, v in pairs]
+        lf, rf = _float64(_subst(e.lhs, p64)), _float64(_subst(e.rhs, p64))
+        return max(abs(lf - l0), abs(rf - r0)) > REL_TOL * scale / 10
     except Exception:  # noqa: BLE001
         return False
 
